@@ -123,19 +123,21 @@ func treeHash(roots ...string) (string, error) {
 // yieldSets: which files get a yield before every statement, per build flavour.
 var yieldSets = map[string][]string{
 	// ATP session checks: all of atp plus the step/signal plumbing the server calls into
-	"atp": {"atp/*.go", "schema/schema.go", "schema/step.go", "schema/signal.go"},
+	"atp":     {"atp/*.go", "schema/schema.go", "schema/step.go", "schema/signal.go"},
+	"codegen": {},
 	// schema-level concurrency checks
 	"schema": {"atp/*.go", "schema/*.go"},
 }
 
 type prepInfo struct {
-	Dir      string
-	SutDir   string
-	HarnDir  string
-	TreeHash string
-	Sites    []instr.Site
-	Warnings []string
-	Counts   map[string]int
+	CodegenBin string
+	Dir        string
+	SutDir     string
+	HarnDir    string
+	TreeHash   string
+	Sites      []instr.Site
+	Warnings   []string
+	Counts     map[string]int
 }
 
 // prepare builds an instrumented scratch copy of /repo's working tree plus the harness module.
@@ -186,6 +188,28 @@ func prepare(dir string, flavour string) (*prepInfo, error) {
 		return nil, err
 	}
 	info := &prepInfo{Dir: dir, SutDir: sut, HarnDir: harn, TreeHash: th, Sites: res.Sites, Warnings: res.Warnings, Counts: res.Counts}
+	if flavour == "codegen" {
+		// the code generator is a module of its own: map-order seam only, implemented by a file of package main
+		cg := filepath.Join(sut, "cmd", "arcaflow-codegen")
+		cres, err := instr.Run(instr.Options{Root: cg, Pkgs: []string{"."}, GoCmd: goCmd, LocalSeam: true})
+		if err != nil {
+			return nil, fmt.Errorf("instrument codegen: %w", err)
+		}
+		if err := copyFile(filepath.Join(verifDir, "sut_overlay", "zz_seam_main.go.txt"), filepath.Join(cg, "zz_seam.go")); err != nil {
+			return nil, err
+		}
+		info.CodegenBin = filepath.Join(dir, "codegen.bin")
+		cmd := exec.Command(goCmd, "build", "-o", info.CodegenBin, ".")
+		cmd.Dir = cg
+		cmd.Env = goEnv()
+		if b, err := cmd.CombinedOutput(); err != nil {
+			return nil, fmt.Errorf("codegen build failed: %v\n%s", err, b)
+		}
+		for k, v := range cres.Counts {
+			info.Counts["codegen_"+k] = v
+		}
+		info.Warnings = append(info.Warnings, cres.Warnings...)
+	}
 	b, _ := json.MarshalIndent(info, "", " ")
 	_ = os.WriteFile(filepath.Join(dir, "prep.json"), b, 0o644)
 	return info, nil
